@@ -78,6 +78,23 @@ def special_sources():
     # differ, in different scopes (3.7 compiles them as two objects; seeded changes C14-r3, C12-r3)
     add('equal-code-different-lines', "fs = [lambda: (lambda: (a, b)), lambda p: (lambda: (a,\n    b))]\n")
     add('equal-code-different-lines-2', "def o1():\n    return lambda: (lambda: [x, y])\ndef o2(q):\n    return lambda: (lambda: [x,\n\n y])\n")
+    # sibling code objects on one line that agree in everything except a constant, with constants whose hashes collide
+    # (hash(-1) == hash(-2), hash(0) == hash(2**61-1)) or that compare equal (1 == 1.0 == True, 0.0 == -0.0): any table
+    # keyed by less than the constants' type and value merges them (seeded change C05-r4)
+    TW = [('-1', '-2'), ('-1.0', '-2.0'), ('0', str(2 ** 61 - 1)), ('1', '1.0'), ('1', 'True'), ('0.0', '-0.0'),
+          ('0', 'False'), ("'a'", "b'a'"), ('(1, 2)', '(1.0, 2)'), ('-1j', '-2j'), ('None', '...'), ('1e999', '314159')]
+    for i, (p, q) in enumerate(TW):
+        add('twin-consts-%d' % i, "f, g = (lambda s: (s, %s)), (lambda s: (s, %s))\nr = (f(0), g(0))\n" % (p, q))
+    add('twin-consts-list', "sh = [lambda n: n + 1, lambda n: n + 2, lambda n: n + -1, lambda n: n + -2, lambda n: n + -1.0, lambda n: n + -2.0]\n")
+    add('twin-consts-class', "class S:\n    head = lambda self: self.xs[0]; tail = lambda self: self.xs[-1]; prev = lambda self: self.xs[-2]\n")
+    add('twin-consts-nested', "def make():\n    return (lambda: (lambda: -1)), (lambda: (lambda: -2)), (lambda: -1.0), (lambda: -2.0)\n")
+    # falsy / odd docstrings ('' is a docstring: co_consts[0] == '' and func.__doc__ == ''), with constants that are not
+    # first loaded in table order after it and with unreferenced nested code (seeded change C14-r4: `if docstring:`)
+    for i, doc in enumerate(["''", "' '", "'\\n'", "'0'", "", "'\\0'", "f''", "b''", "0", "None", "..."]):
+        add('odd-doc-%d-default' % i, "def f():\n    %s\n    def g(a=1): return a\n    return g\n" % doc)
+        add('odd-doc-%d-dead' % i, "def f():\n    %s\n    def live(): return 2\n    return live\n    def dead(): return 3\n" % doc)
+        add('odd-doc-%d-order' % i, "def f(x):\n    %s\n    if x:\n        return (lambda: 'b'), 'a'\n    return 'a', (lambda: 'c'), 5\n" % doc)
+        add('odd-doc-%d-class' % i, "class C:\n    %s\n    def m(self, k=(1, 2)):\n        %s\n        return k, 1\n" % (doc, doc))
     # ladders of nested ifs whose exits are consecutive one-instruction statements around the 255/256 operand
     # boundary: the jump-size fix point needs one more round per level (only normalized / hand-built data recompute it)
     for depth in (3, 4, 5):
